@@ -283,6 +283,12 @@ class GeoIndex:
             for build_point in build_points
         ]).T
 
+        if pairs.size and self.shuffler is not None:
+            # We shuffled the build points in the beginning, so the indices
+            # in the first row (the collocation indices from the build
+            # points) have to be translated back
+            pairs[0, :] = self.shuffler[pairs[0, :]]
+
         if not return_distance:
             return pairs
 
@@ -301,15 +307,7 @@ class GeoIndex:
         else:
             distances /= 1000.
 
-        if self.shuffler is None:
-            return pairs, distances
-        else:
-            # We shuffled the build points in the beginning, so the current
-            # indices in the second row (the collocation indices from the build
-            # points) are not correct
-            pairs[0, :] = self.shuffler[pairs[0, :]]
-
-            return pairs, distances
+        return pairs, distances
 
 
 def gridded_mean(lat, lon, data, grid):
